@@ -1,6 +1,6 @@
 (** C09 — property theorems only. *)
 From V Require Import Base.Util Gql.Ast Writer.Wop Ts.TsType Ts.TsDen
-  C10.Model C10.Spec C10.DenLemmas C10.Proofs C10.Examples C09.Model C09.Spec C09.Proofs C09.Proofs2 C09.Proofs3 C09.Examples.
+  C10.Model C10.Spec C10.DenLemmas C10.Proofs C10.Examples C09.Model C09.Spec C09.Given C09.Proofs C09.Proofs2 C09.Proofs3 C09.Proofs4 C09.Examples.
 
 (** the Variables type, read against the schema declaration's `__OperationInput` namespace,
     decides exactly [Explicit_c]: whenever it decides membership of an assignment, it decides it
@@ -94,3 +94,21 @@ Proof.
   - rewrite Hf in H1, H2. split; [|exact H2]. split; [intros H; apply H1 in H; discriminate|discriminate].
 Qed.
 Print Assumptions C09_omission_from_config.
+
+(** Explicit_c(V) = Coercible(V) ∩ Given_c(V) (spec level) *)
+Theorem C09_explicit_split : forall o doc allow, so_optional o = allow -> forall vds v,
+  explicit_c o doc allow vds v = coercible o doc vds v && given_c doc allow vds v.
+Proof. exact explicit_split. Qed.
+Print Assumptions C09_explicit_split.
+
+(** THE PROPERTY AS ONE THEOREM, with an executable guard: [[Variables_c(O)]] = Coercible(V) ∩ Given_c(V),
+    for every variable type shape (any nesting of lists / non-null, defaults, recursive input objects, the
+    three scalar-config shapes) and both values of allowUndefinedAsOptionalInput *)
+Theorem C09_main : forall o doc ms ns allow vds v,
+  c09_guard o doc allow vds = true -> namespace_members o doc OpIn = Ok ms ->
+  (In_type (vars_env ms) (variables_type (mkOOpts ns allow) vds) v
+     <-> coercible o doc vds v = true /\ given_c doc allow vds v = true)
+  /\ (NotIn_type (vars_env ms) (variables_type (mkOOpts ns allow) vds) v
+     <-> coercible o doc vds v = false \/ given_c doc allow vds v = false).
+Proof. exact variables_main. Qed.
+Print Assumptions C09_main.
